@@ -7,7 +7,9 @@ import (
 	"encoding/json"
 	"fmt"
 	"io"
+	"sort"
 	"strings"
+	"sync"
 	"time"
 
 	"perkeep.org/pkg/blob"
@@ -74,6 +76,7 @@ func kindOf(br blob.Ref, data []byte) string {
 // recorder is the StatReceiver the file writer uploads to; it keeps the upload order.
 type recorder struct {
 	*memory.Storage
+	mu    sync.Mutex // the file writer uploads from several goroutines
 	order []*lblob
 	seen  map[blob.Ref]bool
 }
@@ -83,6 +86,8 @@ func (r *recorder) ReceiveBlob(c context.Context, br blob.Ref, src io.Reader) (b
 	if err != nil {
 		return blob.SizedRef{}, err
 	}
+	r.mu.Lock()
+	defer r.mu.Unlock()
 	if !r.seen[br] {
 		r.seen[br] = true
 		r.order = append(r.order, &lblob{ref: br, data: all, kind: kindOf(br, all)})
@@ -97,6 +102,24 @@ func writtenFile(name string, content []byte, mod time.Time) (*fileT, error) {
 	if err != nil {
 		return nil, err
 	}
+	// the writer's goroutines finish in no particular order: make the upload order a function of the
+	// content (data chunks by ref, then "bytes" schema blobs by ref, the "file" schema blob last)
+	class := func(b *lblob) int {
+		switch {
+		case b.kind == "raw":
+			return 0
+		case strings.HasPrefix(b.kind, "bytes:"):
+			return 1
+		}
+		return 2
+	}
+	sort.SliceStable(rec.order, func(i, j int) bool {
+		ci, cj := class(rec.order[i]), class(rec.order[j])
+		if ci != cj {
+			return ci < cj
+		}
+		return rec.order[i].ref.String() < rec.order[j].ref.String()
+	})
 	return &fileT{name: name, fileRef: fr, blobs: rec.order, content: content, whole: blob.RefFromBytes(content),
 		shape: fmt.Sprintf("written:%dblobs", len(rec.order))}, nil
 }
